@@ -450,6 +450,9 @@ def score(chk: Check, script, o, rep) -> None:
     for c in o["calls"]:
         kind, val = c["res"]
         chk.count("result." + (kind if kind == "ok" else val))
+        if kind == "ok" and val is None:
+            # (None is how the library says "the controller holds no schedule for this zone": this controller always holds one)
+            chk.violation("c18.returned_no_schedule", f"zone {c['zone']}: get_schedule ended without an error and without a schedule - the controller held one throughout", rep)
         if kind == "ok" and val is not None:
             versions = [s for (t, cnt, s) in o["history"][c["zone"]]]
             # the versions that existed during the transfer: the one current at t0 and every later one up to t1
